@@ -12,9 +12,12 @@ import (
 	"fmt"
 	"hash/fnv"
 	"math/rand/v2"
+	"os"
 	"sort"
 	"strings"
+	"sync/atomic"
 	"testing"
+	"time"
 
 	"github.com/apmckinlay/gsuneido/db19/index/btree"
 	"github.com/apmckinlay/gsuneido/db19/index/iface"
@@ -511,6 +514,7 @@ func vfC09Program(w *vfC09World, kind string, pi int, ident string) {
 			}
 			nreads := len(tran.reads)
 			prevState, prevCur := m.state, m.cur
+			vfC09Current.Store(ident + " step " + fmt.Sprint(s) + ": " + strings.Join(trace, " ") + " | live " + fmt.Sprintf("%q", keys))
 			var p any
 			if dir > 0 {
 				p, _ = vk.Catch(it.Next)
@@ -521,6 +525,7 @@ func vfC09Program(w *vfC09World, kind string, pi int, ident string) {
 				fail("C09/"+kind+"/panic-in-"+name, fmt.Sprintf("step %d", s), map[string]any{"panic": fmt.Sprint(p)})
 				return
 			}
+			vfC09Progress.Add(1)
 			rep.Count("steps", 1)
 			rep.Count("steps_"+kind, 1)
 			if m.skip != 0 {
@@ -704,6 +709,28 @@ func vfC09Program(w *vfC09World, kind string, pi int, ident string) {
 	}
 }
 
+// progress watchdog: a step normally takes microseconds; if no step finishes for 60 s of real time the iterator
+// is looping. Real time is used only to notice that; the verdict is "this step did not terminate".
+var vfC09Progress atomic.Int64
+var vfC09Current atomic.Value // string: what is running
+
+func vfC09Watchdog(rep *vk.Report) {
+	go func() {
+		last, since := int64(-1), time.Now()
+		for {
+			time.Sleep(2 * time.Second)
+			if p := vfC09Progress.Load(); p != last {
+				last, since = p, time.Now()
+			} else if time.Since(since) > 60*time.Second {
+				cur, _ := vfC09Current.Load().(string)
+				rep.Violate("C09/step-does-not-terminate", vk.Trunc(cur, 1500), "no iterator step finished for 60 s")
+				rep.Finish()
+				os.Exit(3)
+			}
+		}
+	}()
+}
+
 func dir0(d int) dir {
 	if d > 0 {
 		return next
@@ -722,6 +749,7 @@ func TestVerifC09(t *testing.T) {
 		"Cur is only read directly after a Next/Prev; skip-scan prefix/suffix are computed by the monitor's own key parser",
 		"read tracking is only checked for plain ranges: the stretch passed over by a step must lie inside one reported read range")
 	defer rep.Finish()
+	vfC09Watchdog(rep)
 	n := vk.N(2500, 190000)
 	for ci := 0; ci < n; ci++ {
 		r := vk.RandFor(9, ci)
@@ -756,5 +784,6 @@ func TestVerifC09(t *testing.T) {
 		btree.SetSplit(restore)
 		rep.Eval(h.Sum64(), nonEmpty >= 2)
 		rep.Count("worlds", 1)
+		vfC09Progress.Add(1)
 	}
 }
